@@ -273,6 +273,9 @@ def find_in_workspace(
     def add_children(mod_obj, query: str):
         tmp_list = []
         for child_obj in mod_obj.get_children(filter_public):
+            # Skip internal pseudo scopes (#do1, #if2, #GEN_INT3, ...)
+            if child_obj.name.startswith("#"):
+                continue
             if child_obj.name.lower().find(query) >= 0:
                 tmp_list.append(child_obj)
         return tmp_list
